@@ -66,7 +66,14 @@ class Repartition(Expr):
         ):
             new_partitions = self.operand("new_partitions")
             if isinstance(new_partitions, Callable):
-                return new_partitions(self.frame.npartitions)
+                new_partitions = new_partitions(self.frame.npartitions)
+            if (
+                new_partitions > self.frame.npartitions
+                and self.frame.known_divisions
+            ):
+                # the new divisions are interpolated and may collapse:
+                # report what the divisions say
+                return super().npartitions
             return new_partitions
         return super().npartitions
 
